@@ -14,6 +14,15 @@ func (sc *Scn) refs() map[int]bool {
 		}
 		seen[id] = true
 		n := sc.Nodes[id]
+		for _, vs := range n.Visits {
+			for _, o := range []Outcome{vs.Prep, vs.Post} {
+				if o.Conn != nil {
+					walk(o.Conn.Flow)
+					walk(o.Conn.From)
+					walk(o.Conn.To)
+				}
+			}
+		}
 		if n.Kind == "flow" {
 			walk(n.Start)
 			for _, c := range n.Conns {
@@ -47,6 +56,16 @@ func compact(sc *Scn) *Scn {
 		}
 	}
 	for _, n := range nodes {
+		for vi := range n.Visits {
+			for _, o := range []*Outcome{&n.Visits[vi].Prep, &n.Visits[vi].Post} {
+				if o.Conn != nil {
+					o.Conn.Flow, o.Conn.From = remap[o.Conn.Flow], remap[o.Conn.From]
+					if o.Conn.To >= 0 {
+						o.Conn.To = remap[o.Conn.To]
+					}
+				}
+			}
+		}
 		n.ID = remap[n.ID]
 		if n.Kind == "flow" {
 			n.Start = remap[n.Start]
@@ -84,6 +103,16 @@ func simplerOutcome(o Outcome) []Outcome {
 	if o.Boost {
 		c := o
 		c.Boost = false
+		out = append(out, c)
+	}
+	if o.Both {
+		c := o
+		c.Both = false
+		out = append(out, c)
+	}
+	if o.Conn != nil {
+		c := o
+		c.Conn = nil
 		out = append(out, c)
 	}
 	if o.Fail != "" {
